@@ -121,6 +121,7 @@ def case_bins(run, i):
         fh.write(F.to_bed(rows, 4))
     _safe(T.do_target, b_arr, ann, bool(rng.integers(0, 2)), True, tavg)
     _safe(T.do_target, b_arr, ann, False, False, tavg)
+    _safe(T.do_target, b_arr, ann, True, False, tavg)          # annotation + short names without --split, on a table that may hold zero-width baits
     os.remove(ann)
     run.end_case(fp=rt.fingerprint([baits, access, avg, mn], 12), nontrivial=len(baits) > 1,
                  sample={"baits": baits[:5], "access": access[:4] if access else None, "avg": avg, "min": mn} if i % 67 == 0 else None)
